@@ -22,7 +22,7 @@ func init() {
 	register(&Check{
 		ID:    "C14",
 		Level: "fault_enumeration",
-		Rule: "history points = all states of a BFS (depth 3 quick / 6 thorough) over {deposit, deposit-with-caller, two minting receives, pause/unpause of both flags, max body size 131/8000}; at each point every money-moving request " +
+		Rule: "history points = all states of a BFS (depth 3 quick / 7 thorough) over {deposit, deposit-with-caller, two minting receives, pause/unpause of both flags, max body size 131/8000}; at each point every money-moving request " +
 			"(deposit to a registered / all-zero / wrong-length messenger, with-caller with a good / 31-byte caller, minting receive) runs under every fault plan in {none, fail-before, fail-after, panic}^(number of dependency calls); " +
 			"an injected failure or a late validation failure must surface as an error (then all four stores and the event stream are compared with the pre-state), a success must have had no fault, nil results from transfer+burn (or mint) and a MessageSent (or a marked nonce); " +
 			"distinct_nontrivial = distinct (flags, request, fault plan, outcome) tuples with at least one injected or late failure",
@@ -42,7 +42,7 @@ const c14Shards = 10
 func c14Jobs(tier string) []Job {
 	depth := 3
 	if tier == "thorough" {
-		depth = 6
+		depth = 7
 	}
 	var jobs []Job
 	for sh := 0; sh < c14Shards; sh++ {
